@@ -31,8 +31,10 @@ m = {
     "notes": NOTES,
     "not_applicable": NOT_APPLICABLE,
 }
+_obl = json.load(open(os.path.join(os.path.dirname(HERE), "obligations.json")))
 for c in CHECKS:
     pid = c["property_id"]
+    has_thm = bool(_obl.get(pid, {}).get("theorems"))
     m["checks"].append({
         "property_id": pid,
         "quick_cmd": f"./check {pid} --tier quick",
@@ -40,7 +42,7 @@ for c in CHECKS:
         "evidence_file": f"evidence/{pid}.json",
         "replay_cmd_template": "./check --replay {path}",
         "engine": "check",
-        "level_claimed": {"category": "proof", "text": c["text"], "design_ref": c.get("design_ref", "DESIGN.md §6 " + pid)},
+        "level_claimed": {"category": "proof" if has_thm else "exploration", "text": c["text"] if has_thm else ("(no closed theorem for this property yet: claimed as exploration — model/spec correspondence and oracle search — until one lands) " + c["text"]), "design_ref": c.get("design_ref", "DESIGN.md §6 " + pid)},
         "level_note": c["note"],
         "technique": c["technique"],
     })
